@@ -179,9 +179,8 @@ theorem routePlan_eq_ops (bl : List Route) (dels : List (Nat × Route)) (inss : 
 
 def routeOpsOf (al bl : List Route) : List RO := routeOps bl (routeDelsOf al bl) (routeInssOf al bl)
 
-/-- **Tie to the engine model**: what `diffRoutes` appends to the script is the rendering of `routeOpsOf`. -/
-theorem diffRoutes_out (st : St) (al bl : List Route) :
-    (diffRoutes st al bl).out = st.out ++ (routeOpsOf al bl).map RO.toChg := by
+theorem diffRoutes_frame_ops (st : St) (al bl : List Route) :
+    RouteFrame st (diffRoutes st al bl) ((routeOpsOf al bl).map RO.toChg) := by
   have hframe := diffRoutes_frame st al bl
   have hplan : (if al.isEmpty then bl.map (fun r => Chg.route r.text)
        else routePlan bl (routeDels al (diffUnordered (al.map (·.text)) (bl.map (·.text))))
@@ -192,7 +191,11 @@ theorem diffRoutes_out (st : St) (al bl : List Route) :
     · rw [routePlan_nodels]
     · rfl
   rw [hplan, routePlan_eq_ops] at hframe
-  exact hframe.out
+  exact hframe
+
+/-- **Tie to the engine model**: what `diffRoutes` appends to the script is the rendering of `routeOpsOf`. -/
+theorem diffRoutes_out (st : St) (al bl : List Route) :
+    (diffRoutes st al bl).out = st.out ++ (routeOpsOf al bl).map RO.toChg := (diffRoutes_frame_ops st al bl).out
 
 /-- Shape of the second loop: every operation adds an inserted route, possibly replacing a deleted device route
 with the same destination; every inserted route is added. -/
